@@ -9,6 +9,7 @@ import (
 )
 
 type cueRenderer struct {
+	nullableCtx bool
 	d          *Defs
 	out        *renderOut
 	useTime    bool
@@ -170,6 +171,11 @@ func (r *cueRenderer) ty(s *Src, indent string) string {
 		if len(s.EnumS) == 1 {
 			r.out.note("enumS.single:parsed-as-constant")
 		}
+		if r.nullableCtx && len(s.EnumS) > 1 {
+			// `null | "a" | "b"` is read as a disjunction of three constants; cog's Go output for it does
+			// not compile ("String redeclared")
+			r.out.note("nullable.enumS.inline:go-does-not-compile")
+		}
 		parts := []string{}
 		for _, v := range s.EnumS {
 			parts = append(parts, jsonQuote(v))
@@ -222,7 +228,9 @@ func (r *cueRenderer) field(f Field, indent string) string {
 	if !f.Required {
 		label += "?"
 	}
+	r.nullableCtx = f.Nullable
 	expr, attr := r.tyAttr(f.Ty, indent, !f.Nullable)
+	r.nullableCtx = false
 	if f.Default != nil {
 		dv := cueValue(*f.Default)
 		t := r.d.resolve(f.Ty)
